@@ -11,6 +11,7 @@ CONSTANTS
   FixedStar = TRUE
   FixedFinalInString = TRUE
   FixedNestedLiteral = TRUE
+  BugBuiltinsFirst = FALSE
   AnnChoices = {"noann", "int", "QA"}
   DefaultChoices = {"none", "int:1"}
   RetChoices = {"noann", "int"}
